@@ -1084,3 +1084,133 @@ Proof.
   destruct (t_pc th'); try discriminate. destruct (t_todo th'); try discriminate.
   split; auto. cbn in Hp. now rewrite app_nil_r in Hp.
 Qed.
+
+(* ================================================================== *)
+(* threads sharing an id (nested queries, recycled idents) under the discipline of Threads.disciplined *)
+Section SharedIds.
+Variable cfg : config.
+Variable orc : oracle.
+
+Lemma pc_inv_insensitive st st' ow l t p :
+  slot_sensitive p = false -> pc_inv cfg st ow t p -> pc_inv cfg st' (ow ++ l) t p.
+Proof.
+  intros Hs H. destruct p; cbn in *; try discriminate; auto using nth_error_app_keep.
+  destruct H as [H1 H2]. split; auto using nth_error_app_keep.
+Qed.
+
+Lemma others_ok_spec i t : forall ths j0, others_ok i t j0 ths = true ->
+  forall k th2, nth_error ths k = Some th2 -> j0 + k <> i ->
+  t_id th2 <> t \/ slot_sensitive (t_pc th2) = false.
+Proof.
+  induction ths as [|x ths IH]; intros j0 H k th2 Hn Hne; [destruct k; discriminate|].
+  cbn in H. apply andb_true_iff in H. destruct H as [H1 H2].
+  destruct k as [|k]; cbn in Hn.
+  - inversion Hn; subst. apply orb_true_iff in H1. destruct H1 as [H1|H1].
+    + apply orb_true_iff in H1. destruct H1 as [H1|H1].
+      * apply Nat.eqb_eq in H1. lia.
+      * left. apply negb_true_iff in H1. now apply Nat.eqb_neq in H1.
+    + right. now apply negb_true_iff in H1.
+  - apply (IH (S j0) H2 k th2 Hn). lia.
+Qed.
+
+Lemma upd_forall_idx (P P' : thread -> Prop) : forall ths i th th1 (j0 : nat),
+  nth_error ths i = Some th -> Forall P ths -> P' th1 ->
+  (forall k th2, nth_error ths k = Some th2 -> k <> i -> P th2 -> P' th2) ->
+  Forall P' (upd_nth i (fun _ => th1) ths).
+Proof.
+  induction ths as [|x ths IH]; intros [|i] th th1 j0 Hn Hall H1 Hoth; cbn in *; try discriminate.
+  - inversion Hall; subst. constructor; auto.
+    rewrite Forall_forall in *. intros th2 Hin. apply In_nth_error in Hin. destruct Hin as [k Hk].
+    apply (Hoth (S k) th2); auto. apply H3. eapply nth_error_In; eauto.
+  - inversion Hall; subst. constructor.
+    + apply (Hoth 0 x); auto.
+    + eapply (IH i th th1 j0); eauto. intros k th2 Hk Hne. apply (Hoth (S k) th2); auto.
+Qed.
+
+Lemma run_inv_disciplined : c_mode cfg <> MAutoUncached ->
+  forall sched st ths st' ths' tr,
+  sys_inv cfg orc st ths -> disciplined cfg orc sched st ths = true ->
+  run cfg orc sched st ths = (st', ths', tr) ->
+  sys_inv cfg orc st' ths'.
+Proof.
+  intros Hmode. induction sched as [|i sched IH]; intros st ths st' ths' tr Hinv Hd Hrun; cbn in Hrun, Hd.
+  - inversion Hrun; subst. auto.
+  - destruct (nth_error ths i) as [th|] eqn:En; [|eauto].
+    destruct (finished th); [eauto|].
+    apply andb_true_iff in Hd. destruct Hd as [Hok Hd].
+    destruct (step_pc cfg orc st th) as [st1 th1] eqn:Es.
+    destruct (run cfg orc sched st1 (upd_nth i (fun _ => th1) ths)) as [[st2 ths2] tr2] eqn:Er.
+    inversion Hrun; subst; clear Hrun.
+    destruct Hinv as (ow & Hh & Hc & Hall).
+    assert (Hth : thread_inv cfg orc st ow th).
+    { rewrite Forall_forall in Hall. apply Hall. eapply nth_error_In; eauto. }
+    destruct (step_inv cfg orc Hmode _ _ _ _ _ Hh Hc Hth Es) as (l & Hh1 & Hc1 & Hth1 & Hid & Hfr).
+    eapply IH; [| exact Hd | exact Er].
+    exists (ow ++ l). split; [exact Hh1|split; [exact Hc1|]].
+    eapply (upd_forall_idx _ _ ths i th th1 0); eauto.
+    intros k th2 Hk Hne [Hr2 Hp2]. split; auto.
+    destruct (others_ok_spec _ _ _ _ Hok k th2 Hk) as [Ht|Hs]; [cbn; lia| |].
+    + eapply pc_inv_other; eauto.
+    + eapply pc_inv_insensitive; eauto.
+Qed.
+
+Theorem all_results_own_disciplined : c_mode cfg <> MAutoUncached ->
+  forall sched ths, Forall fresh_thread ths ->
+  disciplined cfg orc sched (init_state cfg) ths = true ->
+  forall st' ths' tr, run cfg orc sched (init_state cfg) ths = (st', ths', tr) ->
+  Forall (results_own orc) ths'.
+Proof.
+  intros Hmode sched ths Hfresh Hd st' ths' tr Hrun.
+  destruct (run_inv_disciplined Hmode _ _ _ _ _ _ (init_inv cfg orc _ Hfresh) Hd Hrun) as (ow & _ & _ & Hall).
+  rewrite Forall_forall in *. intros th Hin. apply (Hall th Hin).
+Qed.
+
+(* distinct ids are a special case *)
+Lemma others_ok_nodup i th : forall ths j0, (forall k th2, nth_error ths k = Some th2 -> j0 + k <> i -> t_id th2 <> t_id th) ->
+  others_ok i (t_id th) j0 ths = true.
+Proof.
+  induction ths as [|x ths IH]; intros j0 H; cbn; auto.
+  apply andb_true_iff. split.
+  - destruct (Nat.eqb j0 i) eqn:E; cbn; auto.
+    apply Nat.eqb_neq in E. assert (Hx : t_id x <> t_id th) by (apply (H 0 x); cbn; auto; lia).
+    apply Nat.eqb_neq in Hx. rewrite Hx. reflexivity.
+  - apply IH. intros k th2 Hk Hne. apply (H (S k) th2); auto. lia.
+Qed.
+
+Lemma nodup_nth_tid (ths : list thread) : NoDup (map t_id ths) ->
+  forall i k th th2, nth_error ths i = Some th -> nth_error ths k = Some th2 -> k <> i -> t_id th2 <> t_id th.
+Proof.
+  intros Hnd i k th th2 Hi Hk Hne E.
+  apply Hne. eapply (proj1 (NoDup_nth_error (map t_id ths)) Hnd k i).
+  - apply nth_error_Some. rewrite nth_error_map, Hk. discriminate.
+  - rewrite !nth_error_map, Hi, Hk. cbn. congruence.
+Qed.
+
+Lemma nodup_disciplined : forall sched st ths, NoDup (map t_id ths) -> disciplined cfg orc sched st ths = true.
+Proof.
+  induction sched as [|i sched IH]; intros st ths Hnd; cbn; auto.
+  destruct (nth_error ths i) as [th|] eqn:En; auto.
+  destruct (finished th); auto.
+  apply andb_true_iff. split.
+  - apply others_ok_nodup. intros k th2 Hk Hne. eapply nodup_nth_tid; eauto.
+  - destruct (step_pc cfg orc st th) as [st1 th1] eqn:Es. apply IH.
+    destruct (step_program _ _ _ _ _ _ Es) as [_ Hid]. rewrite (map_tid_upd _ _ _ _ En Hid). exact Hnd.
+Qed.
+
+End SharedIds.
+
+(* non-vacuity: a nested query.  Thread position 0 (id 7) asks query 0; while it is parked inside its first trial,
+   position 1 -- same id 7: the nested call -- asks query 1 from beginning to end; then position 0 finishes.
+   The schedule is disciplined and both get their own trees; had the slot been published BEFORE the search
+   (position 0 parked at PRFetch instead), the discipline would be violated. *)
+Definition nest_cfg : config := mkC MReusable OwFalse false 1 false.
+Definition nest_orc : oracle :=
+  mkO (fun q => q) (fun _ => true) (fun q o k => Some (Z.of_nat (q + k))) (fun _ _ _ => false) (fun _ => None).
+Definition nest_threads : list thread := [start_thread 7 [0]; start_thread 7 [1]].
+Definition nest_sched : list nat := [0; 0; 0; 0] ++ repeat 1 8 ++ repeat 0 4.
+Lemma nested_example :
+  disciplined nest_cfg nest_orc nest_sched (init_state nest_cfg) nest_threads = true /\
+  enc_results (snd (fst (run nest_cfg nest_orc nest_sched (init_state nest_cfg) nest_threads)))
+  = [[[0; 0; 0; 0; 0]]; [[1; 0; 1; 1; 0]]] /\
+  disciplined nest_cfg nest_orc ([0;0;0;0;0;0;0] ++ repeat 1 8 ++ [0]) (init_state nest_cfg) nest_threads = false.
+Proof. vm_compute. repeat split. Qed.
